@@ -23,10 +23,12 @@ CANDIDATES = ["beers", "burgers", "call", "lunch", "with", "john", "milk", "buy"
               "kids", "grill", "bbq", "sync", "quux", "foo", "bar", "baz", "wobble", "grok", "plugh", "rugby", "jog", "cook", "rice", "vill", "kukk", "pixel", "lobby", "yolk", "ruby", "wow", "klo", "zoo"]
 
 # words that BEGIN like the tail of a pattern (ordinal suffix, am/pm, uhr/h): inert by the same test, placed directly behind the expression
-HAZARD_SUFFIX_WORDS = ["stars", "stew", "thx", "rdx", "ndx", "pmx", "amx", "terrace", "tennis", "hat", "uhrwerk", "hx", "amber", "pmo"]
+HAZARD_SUFFIX_WORDS = ["stars", "stew", "thx", "rdx", "ndx", "pmx", "amx", "terrace", "tennis", "hat", "uhrwerk", "hx", "amber", "pmo", "thanks", "street"]
 
 # words that END like an optional leading word of a pattern ((a |one )quarter, (very )late, (not )before, (right |just )now, (genau )jetzt), placed directly in front
-HAZARD_PREFIX_WORDS = ["every", "knot", "pizza", "bright", "adjust", "ungenau", "phone", "extra", "cannot"]
+HAZARD_PREFIX_WORDS = ["every", "knot", "pizza", "bright", "adjust", "ungenau", "phone", "extra", "cannot",
+                       # words whose compatibility-normalised form has another length (decomposed umlaut, ligature, ellipsis): offsets behind them must not shift
+                       "Bu\u0308ro", "\ufb01x", "lunch\u2026", "\u2460zz"]
 
 _pool = None
 
@@ -59,6 +61,8 @@ def plan(tier, seed):
         for a in alts:
             exprs.append((a, "2018-03-07T12:43:00"))
             exprs.append((a.capitalize() + " 8 Uhr", "2018-03-07T12:43:00"))
+    # clock notations added to the library after the grammar was written
+    exprs += [(t, "2018-03-07T12:43:00") for t in ("8 Uhr 30", "18 Uhr 45", "um 8 Uhr 05", "0 uhr nachts", "day after tomorrow", "monatsende")]
     if tier == "thorough":
         exprs += [(s, "2020-02-29T23:59:30") for _, s in grammar.sentences()] + [(t, "2019-12-31T23:59:30") for t, ts in alphabet.corpus_sentences()]
     exprs = list(dict.fromkeys(exprs))
